@@ -128,6 +128,8 @@ def prepare(verbose=True):
         gm2 = re.sub(r"replace github.com/islishude/bip39 => .*", "replace github.com/islishude/bip39 => " + REPO, gm)
         if gm2 != gm:
             open(os.path.join(hdir, "go.mod"), "w").write(gm2)
+        # the same harness against the PLAIN build of the package (no tag: what users compile); ops that need the hook are unavailable there
+        sh(["go", "build", "-o", os.path.join(BUILD, "implrun_plain"), "."], cwd=hdir, env=GOENV, timeout=900)
         rc, out = sh(["go", "build", "-tags", "verif", "-o", os.path.join(BUILD, "implrun"), "."], cwd=hdir, env=GOENV, timeout=900)
         impl_ok = rc == 0
         if not impl_ok:
@@ -187,10 +189,14 @@ def build_race():
     with Lock():
         hdir = os.path.join(ROOT, "harness")
         rc, out = sh(["go", "build", "-race", "-tags", "verif", "-o", os.path.join(BUILD, "implrun_race"), "."], cwd=hdir, env=GOENV, timeout=1800)
+        # the same with the PLAIN build of the package (no tag): concurrent programs that need no scripted source run there too
+        rc2, out2 = sh(["go", "build", "-race", "-o", os.path.join(BUILD, "implrun_race_plain"), "."], cwd=hdir, env=GOENV, timeout=1800)
+        if rc2 != 0 and os.path.exists(os.path.join(BUILD, "implrun_race_plain")):
+            os.remove(os.path.join(BUILD, "implrun_race_plain"))
     return rc == 0, out
 
 
-def run_race(progs, timeout=180):
+def run_race(progs, timeout=180, plain=False):
     """progs: list of programs; a program is a list of goroutines; a goroutine is a list of op lines.
     Each program runs in its own fresh process (cold package).  Returns (per-goroutine result lists, race report or None, rc)."""
     import tempfile, concurrent.futures
@@ -200,7 +206,7 @@ def run_race(progs, timeout=180):
             for g in prog:
                 f.write(("PRE " + "|".join(g[1:]) if g and g[0] == "PRE" else "|".join(g)) + "\n")
         try:
-            p = subprocess.run([os.path.join(BUILD, "implrun_race"), "race", path], env=dict(GOENV, GORACE="halt_on_error=0"),
+            p = subprocess.run([os.path.join(BUILD, "implrun_race_plain" if plain else "implrun_race"), "race", path], env=dict(GOENV, GORACE="halt_on_error=0"),
                                stdout=subprocess.PIPE, stderr=subprocess.PIPE, text=True, timeout=timeout)
             rc, out, err = p.returncode, p.stdout, p.stderr
         except subprocess.TimeoutExpired:
@@ -356,6 +362,14 @@ def _run_sharded(cmd, lines, shards=NPROC, timeout=3000, model=False):
 
 def run_impl(lines, shards=NPROC):
     return _run_sharded([os.path.join(BUILD, "implrun")], lines, shards)
+
+
+def run_impl_plain(lines, shards=None):
+    """the harness built WITHOUT the verif tag (the package exactly as users build it); only ops that need no hook"""
+    exe = os.path.join(BUILD, "implrun_plain")
+    if not os.path.exists(exe):
+        return ["driver-error plain build missing"] * len(lines)
+    return _run_sharded([exe], lines, shards or NPROC)
 
 
 def run_impl_env(lines, extra_env):
